@@ -630,6 +630,27 @@ pub fn validate_container_attributes(
             ));
         }
     }
+    if attributes.from.is_some() {
+        // same as with `try_from`: the derived input is never looked at, these attributes could only be ignored
+        if let Some(rename_all_span) = attributes.rename_all_span {
+            return Err(syn::Error::new(
+                rename_all_span,
+                "Cannot use the `rename_all` attribute together with the `from` attribute",
+            ));
+        }
+        if let Some(tag) = attributes.tag_span {
+            return Err(syn::Error::new(
+                tag,
+                "Cannot use the `tag` attribute together with the `from` attribute",
+            ));
+        }
+        if let Some(span) = attributes.deny_unknown_fields_span {
+            return Err(syn::Error::new(
+                span,
+                "Cannot use the `deny_unknown_fields` attribute together with the `from` attribute",
+            ));
+        }
+    }
     if matches!(container.data, syn::Data::Struct(..)) {
         if let Some(tag) = attributes.tag_span {
             return Err(syn::Error::new(
